@@ -44,3 +44,23 @@ claim("C09", "other",
       "Writers and bit provenance of the reported colour, the beam->pixel map within 16 px for every clock of the frame on both machines, painting of [last change, beam) with the old colour, whole-border repaint when nothing changed, per-frame flag reset.",
       "The repaint after an SZX load that stores the border directly is judged under C14.",
       "DESIGN.md §3 C09")
+claim("C10", "other",
+      "decision table of the trap condition; path-sensitive interpretation of fast_load_tap with block/memory/RET accesses as effects, each completing exit compared with the documented LD-BYTES algorithm followed along the path's own decisions",
+      "Trap condition and serving guard; one block per request; no-block exit leaves all registers untouched; every completing exit performs one RET with IX/DE/carry and the LOAD stores / VERIFY reads the documented algorithm gives for the same decisions (byte loop explored to depth 3).",
+      "Not decided: equality with the ROM routine for all blocks/requests beyond the explored loop depth (the loop body is the same each iteration, but no inductive argument is made).",
+      "DESIGN.md §3 C10")
+claim("C11", "proof",
+      "transition table of Tap::process_clocks extracted by abstract interpretation per pulse state (symbolic counter/mask/byte) and compared with the standard waveform table; guard on the delay countdown",
+      "All 8 states x data conditions: pulse lengths, toggles, successor states, pilot counts by flag byte, MSB-first bit order, pause, end of tape; countdown stores only 0 or delay-clocks; stopped deck inert.",
+      "Upper jitter bound and equivalence with fast loading are not claimed.",
+      "DESIGN.md §3 C11")
+claim("C12", "other",
+      "algebraic laws checked on composed method summaries (stop, play, rewind, end-of-tape path) over all 8x8 state/saved-state combinations; mod-ref of stop/play",
+      "stop;stop==stop, stop;play resumes exactly, play;play==play, end of tape and rewind-while-stopped forget the saved state, stop/play touch only the two state fields, API forwards.",
+      "Not decided: that the concatenated waveform decodes to the blocks (C11 + data).",
+      "DESIGN.md §3 C12")
+claim("C17", "other",
+      "constant propagation over every enum value (key matrix, compound, joystick tables) + bit-level term equivalence of the event handlers + mod-ref per matrix",
+      "40-key matrix, 7 compound keys, 2x5 Sinclair controls, 8 Kempston bits, 4 mouse buttons, wheel and motion arithmetic, source separation of the three matrices, CAPS SHIFT release rule.",
+      "One open known finding (Sinclair joystick 2 'down'); the row AND across matrices is decided under C07.",
+      "DESIGN.md §3 C17")
